@@ -157,6 +157,25 @@ def v_float_values(cx, X, e):
     return mk_array(X, vals, (3,), "float64")
 
 
+def v_float_inplace(cx, X, e):
+    """read-modify-write: the array handed out by the getter is changed in place and assigned back"""
+    vals = [cx.real(f"x{i}") for i in range(3)]
+    y = cx.real("y0")
+    for v in vals + [y]:
+        cx.assume(Not(eq(v, 1.17549435e-38)) if cx.mode == "sym" else v != 1.17549435e-38)
+    e.values = mk_array(X, vals, (3,), "float64")
+    arr = e.values
+    arr[0] = y
+    return arr
+
+
+def v_vertices_inplace(cx, X, e):
+    e.vertices = mk_array(X, [cx.real(f"v{i}") for i in range(9)], (3, 3), "float64")
+    arr = e.vertices
+    arr[1, 2] = cx.real("w")
+    return arr
+
+
 def v_cells(w):
     def f(cx, X, e):
         n = shape(e.vertices)[0]
@@ -271,6 +290,8 @@ CASES = {
     "ConcatenatedDrillhole.public": (_concat_hole, "public", v_const(False), DH),
     "ConcatenatedData.name": (_concat_data, "name", v_const("renamed log"), ()),
     "FloatData.values": (_floatdata, "values", v_float_values, ()),
+    "FloatData.values(read-modify-write)": (_floatdata, "values", v_float_inplace, ()),
+    "Points.vertices(read-modify-write)": (_points, "vertices", v_vertices_inplace, ()),
     "FloatData.name": (_floatdata, "name", v_const("renamed"), ()),
     "FloatData.visible": (_floatdata, "visible", v_const(False), ()),
     "FloatData.allow_rename": (_floatdata, "allow_rename", v_const(False), ()),
